@@ -357,6 +357,30 @@ pub fn schedule_part(run: &Run) -> Out {
             }
         }
     }
+    // interleaved blocks (seed `C12-rows-in-shared-mark-array`): G >= 16 column groups whose row spans all
+    // overlap - column g = e_g + e_{g+G} (one column per group), optionally one further column e_a + e_b that
+    // joins the groups a and b.  A loop over the *groups* that only forks beyond 2 x 8 items forks here, and
+    // any per-group state indexed by row is shared between groups that are processed concurrently.
+    {
+        let mut push = |g: usize, join: Option<(usize, usize)>| {
+            let n = g + join.is_some() as usize;
+            dcases.push(RMat::from_fn(2 * g, n, |i, j| {
+                if j < g {
+                    z((i == j || i == j + g) as i64)
+                } else {
+                    let (a, b) = join.unwrap();
+                    z((i == a || i == b) as i64)
+                }
+            }));
+        };
+        push(16, None);
+        push(17, Some((3, 12)));
+        if th {
+            push(17, None);
+            push(18, Some((0, 17)));
+            push(20, Some((9, 10)));
+        }
+    }
     run.par_for(dcases.len(), |ci| {
         if run.over_budget() {
             run.cap("C12 schedules: wall budget reached");
@@ -422,7 +446,7 @@ pub fn schedule_part(run: &Run) -> Out {
             }
             Ok(())
         };
-        let key = format!("spsched:decomp:{}", if _wide { format!("wide17:{:?}", (0..mr.n).find(|&j| (0..mr.m).filter(|&i| !mr.at(i, j).is_zero()).count() == 2).map(|j| (j, (0..mr.m).filter(|&i| !mr.at(i, j).is_zero()).collect::<Vec<_>>()))) } else { mr.show() });
+        let key = format!("spsched:decomp:{}", if _wide { format!("wide{}x{}#{}:{:?}", mr.m, mr.n, ci - n_small, (0..mr.n).rev().find(|&j| (0..mr.m).filter(|&i| !mr.at(i, j).is_zero()).count() == 2).map(|j| (j, (0..mr.m).filter(|&i| !mr.at(i, j).is_zero()).collect::<Vec<_>>()))) } else { mr.show() });
         // wide inputs have ~16 tasks and ~150 lock points: there every switch to another worker
         // counts as a deviation (also at task boundaries), bound 2
         let cfg = Config { workers: 2, choose_items: false, max_decisions: 100_000, min_items: 2, count_task_switches: _wide };
